@@ -137,7 +137,7 @@ Proof. unfold clients_ok, put. simpl. intros. apply Forall_upd_nth; auto. Qed.
 
 Ltac unf :=
   unfold clients_ok, with_log, send, with_queue, put, with_clients, depart, with_leak, with_exit in *;
-  cbn [admin_only total tmr exit_q wedged exited queue clients tzero leaked zero_sends log] in *.
+  cbn [admin_only total tmr exit_q wedged exited queue clients tzero qcap leaked zero_sends log mid_sigint] in *.
 
 Ltac upd_ok Hok Hc := unf; apply Forall_upd_nth; [exact Hok |]; revert Hc; match goal with |- context [admin_only ?s] => generalize (admin_only s) end; intros ao Hc.
 
@@ -149,7 +149,7 @@ Proof.
   - (* Sigint *)
     destruct (negb (main_ok st)); try discriminate.
     destruct (admin_only st) eqn:Ea. { fin Hs. exact Hok. }
-    destruct (qcap st <=? length (queue st))%nat; fin Hs; unfold clients_ok in *; cbn [admin_only clients]; rewrite Ea in Hok;
+    fin Hs; unfold clients_ok in *; cbn [admin_only clients]; rewrite Ea in Hok;
       apply Forall_forall; intros x Hx; apply in_map_iff in Hx; destruct Hx as (c & <- & Hc);
       rewrite Forall_forall in Hok; specialize (Hok _ Hc); clear Hc; crush_cl.
   - destruct (negb (main_ok st)); try discriminate. fin Hs. exact Hok.
@@ -200,6 +200,7 @@ Proof.
     destruct ((total st + z =? 0) && admin_only st); [destruct (exit_q st) |]; fin Hs; exact Hok.
   - destruct (tmr st); try discriminate. destruct (exit_q st); fin Hs; exact Hok.
   - destruct (negb (main_ok st)); try discriminate. destruct (exit_q st); try discriminate. fin Hs. exact Hok.
+  - destruct (negb (mid_sigint st) || wedged st); try discriminate. destruct (qcap st <=? length (queue st))%nat; fin Hs; exact Hok.
 Qed.
 
 (** * The counter *)
@@ -220,7 +221,7 @@ Proof.
   destruct e.
   - destruct (negb (main_ok st)); try discriminate.
     destruct (admin_only st). { fin Hs. split; auto. }
-    destruct (qcap st <=? length (queue st))%nat; fin Hs; unfold counter_ok; simpl; rewrite ?qsum_app, ncounted_set_pend; simpl; split; lia.
+    fin Hs; unfold counter_ok; simpl; rewrite ncounted_set_pend; simpl; split; lia.
   - destruct (negb (main_ok st)); try discriminate. fin Hs. split; auto.
   - destruct (negb (main_ok st)); try discriminate. fin Hs. unfold counter_ok. simpl.
     rewrite ncounted_app. simpl. split; lia.
@@ -255,12 +256,14 @@ Proof.
       unfold counter_ok; simpl; split; lia.
   - destruct (tmr st); try discriminate. destruct (exit_q st); fin Hs; split; auto.
   - destruct (negb (main_ok st)); try discriminate. destruct (exit_q st); try discriminate. fin Hs. split; auto.
+  - destruct (negb (mid_sigint st) || wedged st); try discriminate. destruct (qcap st <=? length (queue st))%nat; fin Hs; unfold counter_ok; simpl; rewrite ?qsum_app; simpl; split; lia.
 Qed.
 
 (** * Control state: timer, exit channel, wedge *)
 
 Definition ctl_ok (st : state) : Prop :=
-  ((tmr st <> TNone -> admin_only st = true) /\ (admin_only st = true -> tmr st <> TNone \/ wedged st = true)) /\
+  ((tmr st <> TNone -> admin_only st = true) /\
+   (admin_only st = true -> tmr st <> TNone \/ wedged st = true \/ mid_sigint st = true)) /\
   (tmr st = TSent <-> exit_q st = Some ByTimer) /\
   (tmr st = TBlocked -> exit_q st = Some ByZero) /\
   (exit_q st <> Some ByTerm) /\
@@ -268,9 +271,10 @@ Definition ctl_ok (st : state) : Prop :=
   (wedged st = true -> admin_only st = true) /\
   (exit_q st = Some ByZero <-> (0 < zero_sends st)%nat) /\
   (forall x, exited st = Some x -> x = ByTerm \/ exit_q st = Some x) /\
-  (admin_only st = true -> wedged st = false -> queue st = [] -> total st = 0 -> exit_q st <> None) /\
+  (admin_only st = true -> wedged st = false -> mid_sigint st = false -> queue st = [] -> total st = 0 -> exit_q st <> None) /\
   (tzero st = true -> tmr st = TNone \/ tmr st = TDead) /\
-  (tzero st = false -> tmr st <> TDead).
+  (tzero st = false -> tmr st <> TDead) /\
+  (mid_sigint st = true -> admin_only st = true /\ tmr st = TNone /\ exit_q st = None /\ wedged st = false).
 
 (** client events leave the control state alone and at most append to the queue *)
 Definition is_client_event (e : event) : bool :=
@@ -279,7 +283,7 @@ Definition is_client_event (e : event) : bool :=
   | _ => false
   end.
 
-Definition ctl (st : state) := (admin_only st, total st, tmr st, exit_q st, wedged st, exited st, tzero st, zero_sends st).
+Definition ctl (st : state) := (admin_only st, total st, tmr st, exit_q st, wedged st, exited st, tzero st, zero_sends st, mid_sigint st).
 
 Lemma client_event_ctl : forall st e st', is_client_event e = true -> step st e = Some st' ->
   ctl st' = ctl st /\ (queue st' = queue st \/ exists m, queue st' = queue st ++ [m]).
@@ -304,37 +308,37 @@ Proof.
       right; eexists; reflexivity.
 Qed.
 
-Ltac cfields := cbn [admin_only total tmr exit_q wedged exited queue clients tzero qcap leaked zero_sends log] in *.
+Ltac cfields := cbn [admin_only total tmr exit_q wedged exited queue clients tzero qcap leaked zero_sends log mid_sigint] in *.
 
 Ltac fin_ctl :=
   repeat split; intros; subst; try discriminate; try congruence; try tauto; try lia;
   try (intuition (try discriminate; try congruence; try lia); fail).
+
+Lemma main_ok_true : forall st, negb (main_ok st) = false -> wedged st = false /\ mid_sigint st = false.
+Proof. unfold main_ok. intros st H. destruct (wedged st), (mid_sigint st); simpl in H; try discriminate; auto. Qed.
 
 Lemma ctl_ok_step : forall st e st', ctl_ok st -> step st e = Some st' -> ctl_ok st'.
 Proof.
   intros st e st' H Hs.
   destruct (is_client_event e) eqn:He.
   - destruct (client_event_ctl _ _ _ He Hs) as (Hc & Hq). unfold ctl in Hc. inversion Hc; clear Hc.
-    unfold ctl_ok in *. destruct H as ((A1 & A2) & B & C & D & E & F & G & I & J & K & L).
+    unfold ctl_ok in *. destruct H as ((A1 & A2) & B & C & D & E & F & G & I & J & K & L & M).
     repeat match goal with X : _ st' = _ st |- _ => rewrite X; clear X end.
     repeat split; try tauto.
-    intros Ha Hw Hqe Ht. destruct Hq as [Hq | (m & Hq)]; rewrite Hq in Hqe; [auto |].
+    intros Ha Hw Hm Hqe Ht. destruct Hq as [Hq | (m & Hq)]; rewrite Hq in Hqe; [auto |].
     exfalso. eapply app_one_not_nil; eauto.
   - unfold step in Hs. destruct (exited st) eqn:Ex; try discriminate.
-    destruct H as ((A1 & A2) & B & C & D & E & F & G & I & J & K & L).
+    destruct H as ((A1 & A2) & B & C & D & E & F & G & I & J & K & L & M).
     destruct e; try discriminate He.
     + (* Sigint *)
       destruct (negb (main_ok st)) eqn:Em; try discriminate.
-      assert (Hw : wedged st = false) by (unfold main_ok in Em; destruct (wedged st); auto; discriminate).
+      destruct (main_ok_true _ Em) as (Hw & Hm).
       destruct (admin_only st) eqn:Ea.
-      { fin Hs. unfold ctl_ok. rewrite ?Ea, ?Ex. fin_ctl. }
+      { fin Hs. unfold ctl_ok. rewrite ?Ea, ?Ex, ?Hw, ?Hm. fin_ctl. }
       assert (Hq : exit_q st = None). { destruct (exit_q st) eqn:Eq; auto. assert (false = true) by (apply E; congruence). discriminate. }
       assert (Ht : tmr st = TNone). { destruct (tmr st) eqn:Et; auto; assert (false = true) by (apply A1; congruence); discriminate. }
       assert (Hz : zero_sends st = 0%nat). { destruct (zero_sends st) eqn:Ez; auto. assert (None = Some ByZero) by (rewrite <- Hq; apply G; lia). discriminate. }
-      destruct (qcap st <=? length (queue st))%nat.
-      * fin Hs. unfold ctl_ok. cfields. rewrite ?Hq, ?Ht, ?Ex, ?Hz. fin_ctl.
-      * fin Hs. unfold ctl_ok. cfields. rewrite ?Hq, ?Hw, ?Ex, ?Hz.
-        destruct (tzero st) eqn:Etz; fin_ctl; try (exfalso; eapply app_one_not_nil; eauto; fail).
+      fin Hs. unfold ctl_ok. cfields. rewrite ?Hq, ?Ht, ?Ex, ?Hz, ?Hw. fin_ctl.
     + (* Sigterm *)
       destruct (negb (main_ok st)); try discriminate. fin Hs. unfold ctl_ok, with_exit. cfields.
       repeat split; try tauto. intros x Hx. inversion Hx. auto.
@@ -343,28 +347,29 @@ Proof.
       repeat split; try tauto; try discriminate.
     + (* DrainDeliver *)
       destruct (negb (main_ok st)) eqn:Em; try discriminate.
-      assert (Hw : wedged st = false) by (unfold main_ok in Em; destruct (wedged st); auto; discriminate).
+      destruct (main_ok_true _ Em) as (Hw & Hm).
       destruct (queue st) eqn:Eq; try discriminate.
       destruct ((total st + z =? 0) && admin_only st) eqn:Ez.
       * apply andb_true_iff in Ez. destruct Ez as (Ez & Ea). apply Z.eqb_eq in Ez.
         destruct (exit_q st) eqn:Eq2.
-        -- fin Hs. unfold ctl_ok. cfields. rewrite ?Eq2, ?Ex. fin_ctl.
-        -- fin Hs. unfold ctl_ok. cfields. rewrite ?Ex.
+        -- fin Hs. unfold ctl_ok. cfields. rewrite ?Eq2, ?Ex, ?Hm. fin_ctl.
+        -- fin Hs. unfold ctl_ok. cfields. rewrite ?Ex, ?Hm.
            assert (Ht : tmr st <> TSent) by (intro X; apply B in X; discriminate).
            assert (Ht2 : tmr st <> TBlocked) by (intro X; apply C in X; discriminate).
            assert (Hz : zero_sends st = 0%nat). { destruct (zero_sends st) eqn:Ezs; auto. assert (None = Some ByZero) by (apply G; lia). discriminate. }
-           rewrite Hw in *. fin_ctl.
+           rewrite Hw in *. rewrite Hm in *. fin_ctl.
       * fin Hs. unfold ctl_ok. cfields. rewrite ?Ex.
         repeat split; try tauto; try discriminate.
-        intros Ha Hw' Hq Ht. rewrite Ha in Ez. rewrite andb_true_r in Ez. apply Z.eqb_neq in Ez. contradiction.
+        intros Ha Hw' Hm' Hq Ht. rewrite Ha in Ez. rewrite andb_true_r in Ez. apply Z.eqb_neq in Ez. contradiction.
     + (* TimerFire *)
       destruct (tmr st) eqn:Et; try discriminate.
       assert (Ha : admin_only st = true) by (apply A1; congruence).
       assert (Htz : tzero st = false). { destruct (tzero st) eqn:Etz; auto. destruct (K eq_refl); congruence. }
+      assert (Hm : mid_sigint st = false). { destruct (mid_sigint st) eqn:Em; auto. destruct (M eq_refl) as (_ & X & _). discriminate. }
       destruct (exit_q st) eqn:Eq.
       * assert (Hc : c = ByZero). { destruct c; auto. - exfalso; apply D; auto. - assert (TArmed = TSent) by (apply B; auto). discriminate. }
-        subst c. fin Hs. unfold ctl_ok. cfields. rewrite ?Eq, ?Ex, ?Htz. fin_ctl.
-      * fin Hs. unfold ctl_ok. cfields. rewrite ?Ex, ?Htz.
+        subst c. fin Hs. unfold ctl_ok. cfields. rewrite ?Eq, ?Ex, ?Htz, ?Hm. fin_ctl.
+      * fin Hs. unfold ctl_ok. cfields. rewrite ?Ex, ?Htz, ?Hm.
         assert (Hz : zero_sends st = 0%nat). { destruct (zero_sends st) eqn:Ezs; auto. assert (None = Some ByZero) by (apply G; lia). discriminate. }
         rewrite Hz. fin_ctl.
     + (* ExitDeliver *)
@@ -372,6 +377,14 @@ Proof.
       fin Hs. unfold ctl_ok, with_exit. cfields. rewrite ?Eq.
       repeat split; try tauto; try discriminate.
       all: try (intros x Hx; inversion Hx; auto).
+    + (* SigintQ *)
+      destruct (mid_sigint st) eqn:Em; simpl in Hs; try discriminate.
+      destruct (M eq_refl) as (Ha & Ht & Hq & Hw). rewrite Hw in Hs.
+      assert (Hz : zero_sends st = 0%nat). { destruct (zero_sends st) eqn:Ez; auto. assert (None = Some ByZero) by (rewrite <- Hq; apply G; lia). discriminate. }
+      destruct (qcap st <=? length (queue st))%nat.
+      * fin Hs. unfold ctl_ok. cfields. rewrite ?Hq, ?Ht, ?Ex, ?Hz, ?Ha. fin_ctl.
+      * fin Hs. unfold ctl_ok. cfields. rewrite ?Hq, ?Hw, ?Ex, ?Hz, ?Ha.
+        destruct (tzero st) eqn:Etz; fin_ctl; try (exfalso; eapply app_one_not_nil; eauto; fail).
 Qed.
 
 (** * The invariant *)
@@ -426,7 +439,7 @@ Proof.
   destruct e; simpl in Ha.
   - destruct (negb (main_ok st)); try discriminate. destruct (admin_only st).
     { fin Hs. eauto using same_but_pend_refl. }
-    destruct (qcap st <=? length (queue st))%nat; fin Hs; cbn [clients]; exists (set_pend c true); (split;
+    fin Hs; cbn [clients]; exists (set_pend c true); (split;
       [rewrite nth_error_map, Hn; reflexivity | unfold same_but_pend; simpl; auto]).
   - destruct (negb (main_ok st)); try discriminate. fin Hs. eauto using same_but_pend_refl.
   - destruct (negb (main_ok st)); try discriminate. fin Hs. unf. exists c. split; auto using same_but_pend_refl.
@@ -455,6 +468,7 @@ Proof.
   - destruct (tmr st); try discriminate. destruct (exit_q st); fin Hs; eauto using same_but_pend_refl.
   - destruct (negb (main_ok st)); try discriminate. destruct (exit_q st); try discriminate. fin Hs.
     eauto using same_but_pend_refl.
+  - destruct (negb (mid_sigint st) || wedged st); try discriminate. destruct (qcap st <=? length (queue st))%nat; fin Hs; eauto using same_but_pend_refl.
 Qed.
 
 (** the log grows by at most one entry per step, and the entry is about the acting client *)
@@ -469,7 +483,7 @@ Lemma log_step : forall st e st', step st e = Some st' ->
 Proof.
   intros st e st' Hs. unfold step in Hs. destruct (exited st); try discriminate.
   destruct e.
-  - destruct (negb (main_ok st)); try discriminate. destruct (admin_only st); [| destruct (qcap st <=? length (queue st))%nat]; fin Hs; auto.
+  - destruct (negb (main_ok st)); try discriminate. destruct (admin_only st); fin Hs; auto.
   - destruct (negb (main_ok st)); try discriminate. fin Hs. right. eexists. split; reflexivity.
   - destruct (negb (main_ok st)); try discriminate. fin Hs. auto.
   - destruct (nth_error (clients st) c); try discriminate. destruct (cphase c0); try discriminate.
@@ -490,6 +504,7 @@ Proof.
   - destruct (tmr st); try discriminate. destruct (exit_q st); fin Hs; auto.
   - destruct (negb (main_ok st)); try discriminate. destruct (exit_q st); try discriminate. fin Hs.
     right. eexists. split; reflexivity.
+  - destruct (negb (mid_sigint st) || wedged st); try discriminate. destruct (qcap st <=? length (queue st))%nat; fin Hs; auto.
 Qed.
 
 (** * c17_refuse_new *)
@@ -580,13 +595,13 @@ Proof.
 Qed.
 
 (** admin clients are still admitted and served in admin-only mode *)
-Lemma admin_admitted : forall st m st1, exited st = None -> wedged st = false ->
+Lemma admin_admitted : forall st m st1, exited st = None -> main_ok st = true ->
   step st (Accept Admin m) = Some st1 ->
   let i := length (clients st) in
   exists st2, step st1 (AuthDone i true) = Some st2 /\ log st2 = OAdmitted i :: log st1 /\
     exists st3, step st2 (Stmt i) = Some st3 /\ log st3 = OServed i :: log st2.
 Proof.
-  intros st m st1 Hx Hw Hs i. unfold step in Hs. rewrite Hx in Hs. unfold main_ok in Hs. rewrite Hw in Hs.
+  intros st m st1 Hx Hw Hs i. unfold step in Hs. rewrite Hx, Hw in Hs.
   simpl in Hs. fin Hs.
   assert (Hn : nth_error (clients st ++ [mkC Admin m (admin_only st) Starting false false]) i
                = Some (mkC Admin m (admin_only st) Starting false false)).
@@ -635,7 +650,7 @@ Proof.
   assert (Hne : forall (l : list obs), l <> OKicked i :: l).
   { intros l H. assert (length l = length (OKicked i :: l)) by congruence. simpl in H0. lia. }
   destruct e.
-  - destruct (negb (main_ok st)); try discriminate. destruct (admin_only st); [| destruct (qcap st <=? length (queue st))%nat]; fin Hs; cbn [log] in Hl;
+  - destruct (negb (main_ok st)); try discriminate. destruct (admin_only st); fin Hs; cbn [log] in Hl;
       exfalso; eapply Hne; eauto.
   - destruct (negb (main_ok st)); try discriminate. fin Hs. unf. inversion Hl.
   - destruct (negb (main_ok st)); try discriminate. fin Hs. unf. exfalso; eapply Hne; eauto.
@@ -663,6 +678,7 @@ Proof.
       exfalso; eapply Hne; eauto.
   - destruct (tmr st); try discriminate. destruct (exit_q st); fin Hs; cbn [log] in Hl; exfalso; eapply Hne; eauto.
   - destruct (negb (main_ok st)); try discriminate. destruct (exit_q st); try discriminate. fin Hs. unf. inversion Hl.
+  - destruct (negb (mid_sigint st) || wedged st); try discriminate. destruct (qcap st <=? length (queue st))%nat; fin Hs; cbn [log] in Hl; exfalso; eapply Hne; eauto.
 Qed.
 
 (** * c17_txn_finishes *)
@@ -724,7 +740,7 @@ Proof.
   { destruct (client_event_ctl _ _ _ He Hs) as (Hc & _). unfold ctl in Hc. inversion Hc. congruence. }
   unfold step in Hs. rewrite H0 in Hs.
   destruct e; try discriminate He.
-  - destruct (negb (main_ok st)); try discriminate. destruct (admin_only st); [| destruct (qcap st <=? length (queue st))%nat]; fin Hs; cbn [exited] in Hx; congruence.
+  - destruct (negb (main_ok st)); try discriminate. destruct (admin_only st); fin Hs; cbn [exited] in Hx; congruence.
   - destruct (negb (main_ok st)); try discriminate. fin Hs. unf. inversion Hx. auto.
   - destruct (negb (main_ok st)); try discriminate. fin Hs. unf. congruence.
   - destruct (negb (main_ok st)); try discriminate. destruct (queue st); try discriminate.
@@ -732,6 +748,7 @@ Proof.
   - destruct (tmr st); try discriminate. destruct (exit_q st); fin Hs; cbn [exited] in Hx; congruence.
   - destruct (negb (main_ok st)); try discriminate. destruct (exit_q st) eqn:Eq; try discriminate. fin Hs.
     unf. inversion Hx. auto.
+  - destruct (negb (mid_sigint st) || wedged st); try discriminate. destruct (qcap st <=? length (queue st))%nat; fin Hs; cbn [exited] in Hx; congruence.
 Qed.
 
 Lemma exitq_step : forall st e st' x, step st e = Some st' -> exit_q st = None -> exit_q st' = Some x ->
@@ -743,7 +760,7 @@ Proof.
   { destruct (client_event_ctl _ _ _ He Hs) as (Hc & _). unfold ctl in Hc. inversion Hc. congruence. }
   unfold step in Hs. destruct (exited st); try discriminate.
   destruct e; try discriminate He.
-  - destruct (negb (main_ok st)); try discriminate. destruct (admin_only st); [| destruct (qcap st <=? length (queue st))%nat]; fin Hs; cbn [exit_q] in Hx; congruence.
+  - destruct (negb (main_ok st)); try discriminate. destruct (admin_only st); fin Hs; cbn [exit_q] in Hx; congruence.
   - destruct (negb (main_ok st)); try discriminate. fin Hs. unf. congruence.
   - destruct (negb (main_ok st)); try discriminate. fin Hs. unf. congruence.
   - destruct (negb (main_ok st)); try discriminate. destruct (queue st); try discriminate.
@@ -752,6 +769,7 @@ Proof.
     left. cbn. auto.
   - destruct (tmr st) eqn:Et; try discriminate. rewrite H0 in Hs. fin Hs. cbn [exit_q] in Hx. inversion Hx. auto.
   - destruct (negb (main_ok st)); try discriminate. rewrite H0 in Hs. discriminate.
+  - destruct (negb (mid_sigint st) || wedged st); try discriminate. destruct (qcap st <=? length (queue st))%nat; fin Hs; cbn [exit_q] in Hx; congruence.
 Qed.
 
 Lemma exitq_mono : forall st e st' x, step st e = Some st' -> exit_q st = Some x -> exit_q st' = Some x.
@@ -761,13 +779,14 @@ Proof.
   { destruct (client_event_ctl _ _ _ He Hs) as (Hc & _). unfold ctl in Hc. inversion Hc. congruence. }
   unfold step in Hs. destruct (exited st); try discriminate.
   destruct e; try discriminate He.
-  - destruct (negb (main_ok st)); try discriminate. destruct (admin_only st); [| destruct (qcap st <=? length (queue st))%nat]; fin Hs; auto.
+  - destruct (negb (main_ok st)); try discriminate. destruct (admin_only st); fin Hs; auto.
   - destruct (negb (main_ok st)); try discriminate. fin Hs. auto.
   - destruct (negb (main_ok st)); try discriminate. fin Hs. auto.
   - destruct (negb (main_ok st)); try discriminate. destruct (queue st); try discriminate.
     destruct ((total st + z =? 0) && admin_only st); [rewrite H0 in Hs |]; fin Hs; auto.
   - destruct (tmr st); try discriminate. rewrite H0 in Hs. fin Hs. auto.
   - destruct (negb (main_ok st)); try discriminate. rewrite H0 in Hs. fin Hs. auto.
+  - destruct (negb (mid_sigint st) || wedged st); try discriminate. destruct (qcap st <=? length (queue st))%nat; fin Hs; auto.
 Qed.
 
 Lemma admin_only_step : forall st e st', step st e = Some st' -> admin_only st' = true ->
@@ -784,6 +803,7 @@ Proof.
     destruct ((total st + z =? 0) && admin_only st); [destruct (exit_q st) |]; fin Hs; auto.
   - destruct (tmr st); try discriminate. destruct (exit_q st); fin Hs; auto.
   - destruct (negb (main_ok st)); try discriminate. destruct (exit_q st); try discriminate. fin Hs. auto.
+  - destruct (negb (mid_sigint st) || wedged st); try discriminate. destruct (qcap st <=? length (queue st))%nat; fin Hs; auto.
 Qed.
 
 Lemma admin_only_needs_sigint : forall tz cap tr st, run (init tz cap) tr = Some st -> admin_only st = true -> In Sigint tr.
@@ -847,17 +867,17 @@ Qed.
 
 (** ... and the converse directions *)
 
-Lemma sigterm_immediate : forall st, exited st = None -> wedged st = false ->
+Lemma sigterm_immediate : forall st, exited st = None -> main_ok st = true ->
   step st Sigterm = Some (with_exit st ByTerm).
-Proof. intros st Hx Hw. unfold step, main_ok. rewrite Hx, Hw. reflexivity. Qed.
+Proof. intros st Hx Hw. unfold step. rewrite Hx, Hw. reflexivity. Qed.
 
-Lemma double_sigint_ignored : forall st, exited st = None -> wedged st = false -> admin_only st = true ->
+Lemma double_sigint_ignored : forall st, exited st = None -> main_ok st = true -> admin_only st = true ->
   step st Sigint = Some st.
-Proof. intros st Hx Hw Ha. unfold step, main_ok. rewrite Hx, Hw, Ha. reflexivity. Qed.
+Proof. intros st Hx Hw Ha. unfold step. rewrite Hx, Hw, Ha. reflexivity. Qed.
 
-Lemma exit_deliver_enabled : forall st x, exited st = None -> wedged st = false -> exit_q st = Some x ->
+Lemma exit_deliver_enabled : forall st x, exited st = None -> main_ok st = true -> exit_q st = Some x ->
   step st ExitDeliver = Some (with_exit st x).
-Proof. intros st x Hx Hw Hq. unfold step, main_ok. rewrite Hx, Hw, Hq. reflexivity. Qed.
+Proof. intros st x Hx Hw Hq. unfold step. rewrite Hx, Hw, Hq. reflexivity. Qed.
 
 Lemma zero_observed_sends : forall st st', step st DrainDeliver = Some st' -> admin_only st = true ->
   total st' = 0 -> exit_q st' <> None.
@@ -869,71 +889,78 @@ Proof.
   - fin Hs. cbn [total] in Ht. rewrite Ha, andb_true_r in Ez. apply Z.eqb_neq in Ez. contradiction.
 Qed.
 
-Lemma timer_forces_exit : forall st, Inv st -> exited st = None -> wedged st = false ->
+Lemma main_ok_split : forall st, main_ok st = true <-> wedged st = false /\ mid_sigint st = false.
+Proof. unfold main_ok. intros st. destruct (wedged st), (mid_sigint st); simpl; split; intros; try discriminate; auto; destruct H; discriminate. Qed.
+
+Lemma timer_forces_exit : forall st, Inv st -> exited st = None -> main_ok st = true ->
   admin_only st = true -> tzero st = false ->
   exists tr st', (tr = [TimerFire; ExitDeliver] \/ tr = [ExitDeliver]) /\ run st tr = Some st' /\
                  exists x, exited st' = Some x /\ x <> ByTerm.
 Proof.
-  intros st (_ & _ & ((A1 & A2) & B & C & D & E & F & G & I & J & K & L)) Hx Hw Ha Htz.
-  assert (Hex : forall s x, exited s = None -> wedged s = false -> exit_q s = Some x -> x <> ByTerm ->
+  intros st (_ & _ & ((A1 & A2) & B & C & D & E & F & G & I & J & K & L & M)) Hx Hm Ha Htz.
+  destruct (proj1 (main_ok_split st) Hm) as (Hw & Hmid).
+  assert (Hex : forall s x, exited s = None -> main_ok s = true -> exit_q s = Some x -> x <> ByTerm ->
                 exists st', run s [ExitDeliver] = Some st' /\ exists y, exited st' = Some y /\ y <> ByTerm).
   { intros s x H1 H2 H3 H4. simpl. rewrite (exit_deliver_enabled _ _ H1 H2 H3). eexists. split; eauto.
     unf. eauto. }
   destruct (tmr st) eqn:Et.
-  - exfalso. destruct (A2 Ha); congruence.
+  - exfalso. destruct (A2 Ha) as [X | [X | X]]; congruence.
   - destruct (exit_q st) eqn:Eq.
-    + destruct (Hex st c Hx Hw Eq) as (st' & Hr & Hy). { intro; subst; apply D; auto. }
+    + destruct (Hex st c Hx Hm Eq) as (st' & Hr & Hy). { intro; subst; apply D; auto. }
       exists [ExitDeliver], st'. auto.
     + exists [TimerFire; ExitDeliver].
       set (s1 := mkS (admin_only st) (total st) TSent (Some ByTimer) (wedged st) (exited st) (queue st)
-                     (clients st) (tzero st) (qcap st) (leaked st) (zero_sends st) (log st)).
+                     (clients st) (tzero st) (qcap st) (leaked st) (zero_sends st) (log st) (mid_sigint st)).
       assert (Hs : step st TimerFire = Some s1).
       { unfold step. rewrite Et, Eq. rewrite Hx at 1. reflexivity. }
       destruct (Hex s1 ByTimer) as (st' & Hr & Hy); auto; try discriminate.
       exists st'. split; auto. split; auto. simpl. rewrite Hs. exact Hr.
   - assert (Eq : exit_q st = Some ByTimer) by (apply B; auto).
-    destruct (Hex st ByTimer Hx Hw Eq) as (st' & Hr & Hy); try discriminate. exists [ExitDeliver], st'. auto.
+    destruct (Hex st ByTimer Hx Hm Eq) as (st' & Hr & Hy); try discriminate. exists [ExitDeliver], st'. auto.
   - assert (Eq : exit_q st = Some ByZero) by (apply C; auto).
-    destruct (Hex st ByZero Hx Hw Eq) as (st' & Hr & Hy); try discriminate. exists [ExitDeliver], st'. auto.
+    destruct (Hex st ByZero Hx Hm Eq) as (st' & Hr & Hy); try discriminate. exists [ExitDeliver], st'. auto.
   - exfalso. apply (L Htz). auto.
 Qed.
 
 Lemma ncounted_nonneg : forall l, 0 <= ncounted l.
 Proof. induction l; simpl; [lia | destruct (counted a); lia]. Qed.
 
-Lemma drain_enabled : forall st m q, exited st = None -> wedged st = false -> queue st = m :: q ->
+Lemma drain_enabled : forall st m q, exited st = None -> main_ok st = true -> queue st = m :: q ->
   exists st', step st DrainDeliver = Some st' /\ queue st' = q /\ clients st' = clients st /\ leaked st' = leaked st /\
-              admin_only st' = admin_only st /\ exited st' = None.
+              admin_only st' = admin_only st /\ exited st' = None /\ mid_sigint st' = mid_sigint st.
 Proof.
-  intros st m q Hx Hw Hq. unfold step, main_ok. rewrite Hx, Hw, Hq. simpl.
+  intros st m q Hx Hw Hq. unfold step. rewrite Hx, Hw, Hq. simpl.
   destruct ((total st + m =? 0) && admin_only st); [destruct (exit_q st) |]; eexists; split; try reflexivity;
-    cbn; auto.
+    cbn; auto 10.
 Qed.
 
 (** once every counted client has left (and none died in a panic) the main loop, by delivering what
     is still in the drain channel, gets its exit message — unless it wedges on the way *)
-Lemma all_left_exits : forall n st, Inv st -> length (queue st) = n -> exited st = None -> wedged st = false ->
+Lemma all_left_exits : forall n st, Inv st -> length (queue st) = n -> exited st = None -> main_ok st = true ->
   admin_only st = true -> ncounted (clients st) = 0 -> leaked st = 0 ->
   exists k st', (k <= n)%nat /\ run st (repeat DrainDeliver k) = Some st' /\
                 (wedged st' = true \/
                  exists x st'', x <> ByTerm /\ step st' ExitDeliver = Some st'' /\ exited st'' = Some x).
 Proof.
-  induction n; intros st HI Hlen Hx Hw Ha Hn Hl.
+  induction n; intros st HI Hlen Hx Hm Ha Hn Hl.
   - destruct (queue st) eqn:Eq; try discriminate.
     exists 0%nat, st. split; auto. split; auto. right.
-    destruct HI as (_ & (Hc & _) & (A & B & C & D & E & F & G & I & J & K & L)).
+    destruct (proj1 (main_ok_split st) Hm) as (Hw & Hmid).
+    destruct HI as (_ & (Hc & _) & ((A1 & A2) & B & C & D & E & F & G & I & J & K & L & M)).
     rewrite Eq in Hc. simpl in Hc.
     assert (Hq : exit_q st <> None) by (apply J; auto; lia).
     destruct (exit_q st) eqn:Eq2; try congruence.
     exists c. eexists. split. { intro; subst; apply D; auto. }
-    rewrite (exit_deliver_enabled _ _ Hx Hw Eq2). split; eauto.
+    rewrite (exit_deliver_enabled _ _ Hx Hm Eq2). split; eauto.
   - destruct (queue st) as [| m q] eqn:Eq; try discriminate.
-    destruct (drain_enabled _ _ _ Hx Hw Eq) as (st1 & Hs & Hq1 & Hc1 & Hl1 & Ha1 & Hx1).
+    destruct (drain_enabled _ _ _ Hx Hm Eq) as (st1 & Hs & Hq1 & Hc1 & Hl1 & Ha1 & Hx1 & Hm1).
+    destruct (proj1 (main_ok_split st) Hm) as (Hw & Hmid).
     destruct (wedged st1) eqn:Hw1.
     + exists 1%nat, st1. split; [lia |]. simpl. rewrite Hs. auto.
     + destruct (IHn st1) as (k & st' & Hk & Hr & Hres); try congruence.
       * eapply Inv_step; eauto.
       * rewrite Hq1. simpl in Hlen. lia.
+      * apply main_ok_split. split; congruence.
       * exists (S k), st'. split; [lia |]. simpl. rewrite Hs. auto.
 Qed.
 
@@ -945,7 +972,7 @@ Proof.
   intros st e st' Hw Hs. pose proof (step_exited_none _ _ _ Hs) as Hx.
   destruct (is_client_event e) eqn:He.
   { destruct (client_event_ctl _ _ _ He Hs) as (Hc & _). unfold ctl in Hc. inversion Hc. split; congruence. }
-  unfold step, main_ok in Hs. rewrite Hx, Hw in Hs. simpl in Hs.
+  unfold step, main_ok in Hs. rewrite Hx, Hw in Hs. simpl in Hs. rewrite ?orb_true_r in Hs.
   destruct e; try discriminate.
   destruct (tmr st); try discriminate. destruct (exit_q st); fin Hs; cbn; auto.
 Qed.
@@ -960,17 +987,14 @@ Qed.
 
 Lemma wedge_origin : forall st e st', step st e = Some st' -> wedged st = false -> wedged st' = true ->
   (e = DrainDeliver /\ exit_q st <> None /\ total st' = 0 /\ admin_only st = true) \/
-  (e = Sigint /\ admin_only st = false /\ (qcap st <= length (queue st))%nat).
+  (e = SigintQ /\ mid_sigint st = true /\ (qcap st <= length (queue st))%nat).
 Proof.
   intros st e st' Hs Hw Hw'.
   destruct (is_client_event e) eqn:He.
   { destruct (client_event_ctl _ _ _ He Hs) as (Hc & _). unfold ctl in Hc. inversion Hc. congruence. }
   unfold step in Hs. destruct (exited st); try discriminate.
   destruct e; try discriminate He.
-  - destruct (negb (main_ok st)); try discriminate.
-    destruct (admin_only st) eqn:Ea; [| destruct (qcap st <=? length (queue st))%nat eqn:Ec]; fin Hs;
-      cbn [wedged] in Hw'; try congruence.
-    right. apply Nat.leb_le in Ec. auto.
+  - destruct (negb (main_ok st)); try discriminate. destruct (admin_only st); fin Hs; cbn [wedged] in Hw'; congruence.
   - destruct (negb (main_ok st)); try discriminate. fin Hs. unf. congruence.
   - destruct (negb (main_ok st)); try discriminate. fin Hs. unf. congruence.
   - destruct (negb (main_ok st)); try discriminate. destruct (queue st); try discriminate.
@@ -979,6 +1003,9 @@ Proof.
     apply andb_true_iff in Ez. destruct Ez as (Ez & Ea). apply Z.eqb_eq in Ez. left. cbn. repeat split; auto; congruence.
   - destruct (tmr st); try discriminate. destruct (exit_q st); fin Hs; cbn [wedged] in Hw'; congruence.
   - destruct (negb (main_ok st)); try discriminate. destruct (exit_q st); try discriminate. fin Hs. unf. congruence.
+  - destruct (mid_sigint st) eqn:Em; simpl in Hs; try discriminate. rewrite Hw in Hs.
+    destruct (qcap st <=? length (queue st))%nat eqn:Ec; fin Hs; cbn [wedged] in Hw'; try congruence.
+    right. apply Nat.leb_le in Ec. auto.
 Qed.
 
 (** * Panic exits leak the counter *)
@@ -1004,8 +1031,7 @@ Lemma leak_preserved : forall st e st', step st e = Some st' -> 0 < leaked st ->
 Proof.
   intros st e st' Hs Hl Hnp He. unfold step in Hs. destruct (exited st); try discriminate.
   destruct e.
-  - destruct (negb (main_ok st)); try discriminate. destruct (admin_only st); [| destruct (qcap st <=? length (queue st))%nat]; fin Hs; auto.
-    cbn. rewrite no_pos_app, Hnp. auto.
+  - destruct (negb (main_ok st)); try discriminate. destruct (admin_only st); fin Hs; auto.
   - destruct (negb (main_ok st)); try discriminate. fin Hs. auto.
   - destruct (negb (main_ok st)); try discriminate. fin Hs. auto.
   - destruct ok; try discriminate He.
@@ -1027,6 +1053,8 @@ Proof.
     destruct ((total st + z =? 0) && admin_only st); [destruct (exit_q st) |]; fin Hs; cbn; auto.
   - destruct (tmr st); try discriminate. destruct (exit_q st); fin Hs; auto.
   - destruct (negb (main_ok st)); try discriminate. destruct (exit_q st); try discriminate. fin Hs. auto.
+  - destruct (negb (mid_sigint st) || wedged st); try discriminate. destruct (qcap st <=? length (queue st))%nat; fin Hs; auto.
+    cbn. rewrite no_pos_app, Hnp. auto.
 Qed.
 
 Lemma zero_sends_step : forall st e st', step st e = Some st' -> e <> DrainDeliver -> zero_sends st' = zero_sends st.
@@ -1036,11 +1064,12 @@ Proof.
   { destruct (client_event_ctl _ _ _ He Hs) as (Hc & _). unfold ctl in Hc. inversion Hc. congruence. }
   unfold step in Hs. destruct (exited st); try discriminate.
   destruct e; try discriminate He; try congruence.
-  - destruct (negb (main_ok st)); try discriminate. destruct (admin_only st); [| destruct (qcap st <=? length (queue st))%nat]; fin Hs; auto.
+  - destruct (negb (main_ok st)); try discriminate. destruct (admin_only st); fin Hs; auto.
   - destruct (negb (main_ok st)); try discriminate. fin Hs. auto.
   - destruct (negb (main_ok st)); try discriminate. fin Hs. auto.
   - destruct (tmr st); try discriminate. destruct (exit_q st); fin Hs; auto.
   - destruct (negb (main_ok st)); try discriminate. destruct (exit_q st); try discriminate. fin Hs. auto.
+  - destruct (negb (mid_sigint st) || wedged st); try discriminate. destruct (qcap st <=? length (queue st))%nat; fin Hs; auto.
 Qed.
 
 (** after a counted client died in a panic — and once every +1 has been delivered — the main loop
@@ -1077,7 +1106,7 @@ Qed.
 
 Lemma tzero_no_timer : forall st, Inv st -> tzero st = true -> step st TimerFire = None.
 Proof.
-  intros st (_ & _ & (A & B & C & D & E & F & G & I & J & K & L)) Htz. unfold step.
+  intros st (_ & _ & (A & B & C & D & E & F & G & I & J & K & L & M)) Htz. unfold step.
   destruct (exited st); auto. destruct (K Htz) as [H | H]; rewrite H; reflexivity.
 Qed.
 
